@@ -101,9 +101,16 @@ func (l *baseLeaf) URLPath(vals map[string]string, withOptional bool) string {
 				continue
 			}
 
-			buf.WriteString("{")
-			buf.WriteString(e.BindParameters.Parameters[0].Ident)
-			buf.WriteString("}")
+			// Every parameter with an expression is a bind of its own, other parameters
+			// (e.g. "capture") only annotate the first one.
+			for i, p := range e.BindParameters.Parameters {
+				if i > 0 && p.Value.Regex == nil {
+					continue
+				}
+				buf.WriteString("{")
+				buf.WriteString(p.Ident)
+				buf.WriteString("}")
+			}
 		}
 	}
 
